@@ -283,7 +283,8 @@ class ExploreStats:
 
 
 def explore(scenario: Callable[[list], Any], bound: Optional[int], max_execs: int,
-            on_execution: Callable[[list, Any], None], start_prefix: Optional[list] = None) -> ExploreStats:
+            on_execution: Callable[[list, Any], None], start_prefix: Optional[list] = None,
+            selfcheck: bool = True) -> ExploreStats:
     """Stateless DFS over choice prefixes.
 
     scenario(prefix) -> (ctl, result): runs the whole scenario from a fresh state, replaying `prefix` and
@@ -292,7 +293,7 @@ def explore(scenario: Callable[[list], Any], bound: Optional[int], max_execs: in
     """
     stats = ExploreStats()
     stack: list[list[int]] = [list(start_prefix or [])]
-    first = True
+    first = selfcheck
     while stack:
         prefix = stack.pop()
         if stats.executions >= max_execs:
